@@ -50,11 +50,23 @@ def defined_names(text, in_oset):
 
 cands = set()
 captured = set()
+test_names = set()
 for f in files:
-    if only and only not in f:
-        continue
     text = open(f).read()
+    is_test_file = "/tests/" in f or f.endswith("/tests.rs")
+    cut = text.find("#[cfg(test)]")
+    tail = text if is_test_file else (text[cut:] if cut >= 0 else "")
+    # test functions name snapshot files: never renamed
+    test_names |= set(re.findall(r"\bfn\s+([A-Za-z_]\w*)", tail))
+    if is_test_file or (only and only not in f):
+        continue
     cands |= defined_names(text, f.endswith("oset.rs"))
+cands -= test_names
+extra = sys.argv[sys.argv.index("--names") + 1].split(",") if "--names" in sys.argv else []
+if "--names-only" in sys.argv:
+    cands = set()
+cands |= set(extra)
+KEEP -= set(extra)
 for f in files:
     text = open(f).read()
     for m in TOK.finditer(text):
